@@ -1,5 +1,5 @@
 INIT TInit
 NEXT TNext
 CONSTRAINT Mark
-POSTCONDITION AllAccepted
+POSTCONDITION Post
 CHECK_DEADLOCK FALSE
